@@ -666,6 +666,59 @@ func (r *walRun) boundaryHistory() {
 	}
 }
 
+// boundaryGCHistory: the acknowledged position and the append position lie in DIFFERENT index pages when Sync + GC run.
+// A group exists; the append position is moved forward (explicit reset, the group follows) to three below a multiple of
+// the index page capacity; messages large enough to roll the data pages over are appended across the index page edge;
+// the group consumes all of them and acknowledges only up to the LAST slot of the old index page, which lies in a later
+// data page than the first one: GC must release exactly the data pages below that page (its answer comes from the index
+// page of the ACKNOWLEDGED sequence), every unacknowledged message stays readable; then everything is acknowledged,
+// Sync, GC, reopen, reads.
+func (r *walRun) boundaryGCHistory() {
+	rng := r.rng
+	const perPage = 1024 * 256
+	const mib = 1024 * 1024
+	if !r.createGroup("g1", false) {
+		panic(walAbort{})
+	}
+	s := int64(perPage*(2+rng.Intn(2)) - 3)
+	r.rec.Emit("Op", trace.F{"t": "main", "op": "SetAppended", "s": s})
+	r.noImage = true
+	r.fq.SetAppendedSeq(s)
+	r.noImage = false
+	r.proj(nil)
+	r.put(70*mib + rng.Intn(10*mib)) // s+1: data page 0
+	r.put(70*mib + rng.Intn(10*mib)) // s+2: data page 1, the last slot of the index page
+	r.put(70*mib + rng.Intn(10*mib)) // s+3: data page 2, the first slot of the next index page
+	r.put(1 + rng.Intn(100))
+	for i := 0; i < 4; i++ {
+		r.consume("g1")
+	}
+	r.ack("g1", s+2)
+	r.syncGC()
+	q := r.fq.Queue()
+	for x := s; x <= q.AppendedSeq()+1; x++ {
+		r.rec.Emit("Get", trace.F{"s": x, "res": getRes(q, r.w, x)})
+	}
+	r.put(1 + rng.Intn(100))
+	r.consume("g1")
+	r.ack("g1", s+3)
+	r.syncGC()
+	for x := s; x <= q.AppendedSeq()+1; x++ {
+		r.rec.Emit("Get", trace.F{"s": x, "res": getRes(q, r.w, x)})
+	}
+	r.reopen()
+	q = r.fq.Queue()
+	r.ensureGroup("g1")
+	r.put(1 + rng.Intn(100))
+	r.consume("g1")
+	r.consume("g1")
+	r.ack("g1", r.groups["g1"].ConsumedSeq())
+	r.syncGC()
+	for x := s; x <= q.AppendedSeq()+1; x++ {
+		r.rec.Emit("Get", trace.F{"s": x, "res": getRes(q, r.w, x)})
+	}
+}
+
 // recoverImage opens the image after k stores with the real code and records what it finds.
 func recoverImage(rec *trace.Recorder, src *walwrap.World, prefix [][]byte, k int, scratch string, nextID *int, resetFields trace.F, groupTail bool) error {
 	dir := filepath.Join(scratch, fmt.Sprintf("img-%d", k))
@@ -731,6 +784,7 @@ func walMain(args []string) int {
 	nconc := fs.Int("concurrent", 0, "concurrent-appender histories (gated)")
 	ngconc := fs.Int("groupconc", 0, "histories with one consuming and one acknowledging thread on the same group (gated)")
 	scratch := fs.String("scratch", "", "scratch directory")
+	boundgcs := fs.Int("boundarygc", 0, "histories in which Sync + GC run while the acknowledged and the append position lie in different index pages (and data pages)")
 	scripts := fs.String("scripts", "", "leg R: JSON file with behaviours generated by TLC from WALQueueGen (list of lists of calls), run after the other histories, imaged after every store")
 	unit := fs.Int("unit", 1, "bytes per length unit of the generated behaviours")
 	maxImages := fs.Int("maximages", 0, "generated behaviours: at most this many crash images per behaviour (0 = all)")
@@ -760,13 +814,14 @@ func walMain(args []string) int {
 	sum := &trace.Summary{Module: "WALQueue", Extra: map[string]any{}}
 	nimages, nstores := 0, 0
 	distinct := map[string]bool{}
-	nfixed := *nh + *bigs + *bounds + *rollfails + *groupfails
+	nfixed := *nh + *bigs + *bounds + *rollfails + *groupfails + *boundgcs
 	for h := 0; h < nfixed+len(gen); h++ {
 		generated := h >= nfixed
 		big := h >= *nh && h < *nh+*bigs
 		boundary := h >= *nh+*bigs && h < *nh+*bigs+*bounds
 		rollfail := h >= *nh+*bigs+*bounds && h < *nh+*bigs+*bounds+*rollfails
-		groupfail := h >= *nh+*bigs+*bounds+*rollfails && !generated
+		groupfail := h >= *nh+*bigs+*bounds+*rollfails && h < *nh+*bigs+*bounds+*rollfails+*groupfails
+		boundgc := h >= *nh+*bigs+*bounds+*rollfails+*groupfails && !generated
 		root := filepath.Join(*scratch, fmt.Sprintf("h%d", h))
 		w := walwrap.NewWorld(root, rec)
 		restore := w.Install()
@@ -777,6 +832,9 @@ func walMain(args []string) int {
 		}
 		if generated {
 			reset = trace.F{"mode": "generated", "h": h, "unit": *unit}
+		}
+		if boundgc {
+			reset = trace.F{"mode": "boundarygc", "h": h}
 		}
 		rec.Reset(reset)
 		rec.Tap = func(b []byte) { run.lines = append(run.lines, append([]byte{}, b...)) }
@@ -806,6 +864,8 @@ func walMain(args []string) int {
 			}()
 			if generated {
 				run.scriptHistory(gen[h-nfixed], *unit)
+			} else if boundgc {
+				run.boundaryGCHistory()
 			} else if big {
 				run.bigHistory()
 			} else if boundary {
